@@ -55,6 +55,17 @@ public:
     virtual ~DataSet() {}
 
 protected:
+    /**
+     * @brief The count of a transfer from or to a scalar: one element, in the rank of the offset
+     *        (or of the data when no offset is given).
+     *
+     * An empty count must not reach ioRead / ioWrite for a scalar, implementations may read it as
+     * "everything" (DataView does).
+     */
+    NDSize singleElement(const NDSize &offset) const {
+        return NDSize(offset ? offset.size() : dataExtent().size(), 1);
+    }
+
     virtual void ioRead(DataType dtype,
                         void *data,
                         const NDSize &count,
@@ -100,7 +111,8 @@ void DataSet::getData(T &value, const NDSize &count, const NDSize &offset) const
     DataType dtype = hydra.element_data_type();
 
     hydra.resize(count);
-    getData(dtype, hydra.data(), count, offset);
+    // only a scalar accepts an empty count: it stands for the one element the scalar can hold
+    getData(dtype, hydra.data(), count ? count : singleElement(offset), offset);
 }
 
 template<typename T>
@@ -111,7 +123,7 @@ void DataSet::getData(T &value, const NDSize &offset) const
 
     NDSize count = hydra.shape();
     if (! count) {
-        count = NDSize(offset.size(), 1);
+        count = singleElement(offset);
     }
     getData(dtype, hydra.data(), count, offset);
 }
@@ -124,6 +136,9 @@ void DataSet::setData(const T &value, const NDSize &offset)
 
     DataType dtype = hydra.element_data_type();
     NDSize shape = hydra.shape();
+    if (! shape) {
+        shape = singleElement(offset);
+    }
 
     setData(dtype, hydra.data(), shape, offset);
 }
